@@ -881,6 +881,7 @@ func runC17(c *Ctx) {
 	c17Examples(c)
 	c17DomainPatternOrders(c)
 	c17MutualPatterns(c)
+	c17NameAndDomainPatterns(c)
 	c17ConcatNames(c)
 	c17Generated(c)
 }
